@@ -5,12 +5,16 @@ Suites
              of external steps (time, ops).  Callbacks are harness closures that record (time, id, kwargs) and then
              run their script re-entrantly on the same manager.  The loop's order of firing is observed and handed
              to the model as `Fire u` steps (the model accepts a Fire only if it is a legal choice).
-  periodic : the real PeriodicTask class on a minimal scheduler that wakes up late (time() > deadline inside _run),
-             cancel at/around deadlines.
+             30 % of the cases run on a loop that dispatches late (LateLoop: jitter of ms up to jumps past several
+             deadlines; `FireAt u t` steps; calls compared by their scheduled-for instant), with negative durations.
+  periodic : the real PeriodicTask class on a minimal scheduler that wakes up late (time() > deadline inside _run,
+             up to 4 intervals late: catch-up), cancel at/around deadlines and while ticks are overdue.
   timer    : real timer devices of a real mode (6 configurations), driven by control events on the 125 ms grid;
              model coq/C13/Timer.v; expiries of the system timer / pause delay observed and validated.
-  modestop : Mode.delay through a real mode's stop (delays added before stop, in mode_<m>_stopping/_stopped handlers,
-             during a held stopping queue); oracle only.
+  modestop : Mode.delay through a real mode's lifecycle (ops with callback scripts before the stop, in
+             mode_<m>_stopping/_stopped handlers, during a held stopping queue, after restarts, second stops; DELAYED
+             control events of a real counter of the mode); model
+             coq/C13/Owner.v (lifecycle flags + the DelayManager model), lifecycle calls observed and validated.
 """
 import functools
 import math
@@ -28,33 +32,51 @@ RULE = ("delay: 1-6 external steps of 1-4 DelayManager ops (add/add_if_doesnt_ex
         "configurations (up/down, end/no end, max, restart_on_complete), 2-10 control events (start/stop/pause with and "
         "without duration/add/subtract/jump/reset/restart/interval changes) 0-1500 ms apart on the 125 ms grid, so that "
         "commands land on tick instants and pause expiries; non-trivial = at least one tick and 3 commands.  modestop: "
-        "0-3 delays before stop, 0-2 in each of the stopping/stopped handlers, optional held stopping queue with delays "
-        "added in the window, optional restart of the mode; non-trivial = at least one delay")
+        "0-2 external steps of 1-3 ops on mode.delay before the stop, 0-2 ops in each of the stopping/stopped handlers "
+        "(registered through the mode or the machine), optional held stopping queue with ops in the window, second stop "
+        "request while stopping / when idle, optional restart (from the mode_stopped handler or 125 ms later) with ops that "
+        "re-add the same names and an optional second stop, callback scripts as in `delay`; non-trivial = at least one add "
+        "and an effective stop; a 500 ms delayed control event of the mode's counter before the stop / in the held window / "
+        "when idle / after the restart (25 % each).  delay, 30 %: late loop (lateness 0 / 1-7 ms / 125 ms-1 s per wake-up), 40 % of those with "
+        "negative durations in external adds; 7 % of script ops and 2 % of external ops raise (half KeyError).  periodic: "
+        "lateness up to 4 intervals (catch-up), cancel while overdue.  timer: 25 % on the late loop")
 TRUSTED_BASE = [
     "Coq 8.16.1 kernel (coqc), vm_compute for evaluating the model in the correspondence run and for the refutation witness; no native_compute",
     "axioms: none (every Print Assumptions is 'Closed under the global context')",
     "hand-written model coq/C13/Model.v tied to the working tree by correspondence: harness/props/c13.py runs the real "
-    "DelayManager on mpf's TimeTravelLoop (PeriodicTask on a minimal late-waking scheduler) and the model on the same "
-    "histories; the loop's choice among due handles is observed and validated by the model, not predicted",
+    "DelayManager on mpf's TimeTravelLoop and on a late-dispatching subclass of it defined in the harness (PeriodicTask "
+    "on a minimal late-waking scheduler) and the model on the same histories; the loop's choice among due handles and "
+    "its dispatch instants are observed and validated by the model, not predicted",
+    "coq/C13/Owner.v (mode lifecycle) tied to mpf/core/mode.py through class-level recording wrappers around "
+    "Mode.start/_started/stop/_stopped/_mode_stopped_callback and DelayManager.clear installed by the harness in its "
+    "worker processes: which lifecycle call happens when is observed, its effect on flags/table/handles is predicted",
     "CPython asyncio (BaseEventLoop._run_once, TimerHandle.cancel) and mpf/tests/loop.py TimeTravelLoop as the scheduler "
     "the handles run on; observation of handle state through TimerHandle.cancelled() and loop._scheduled/_ready",
     "the Python oracle in harness/props/c13.py (spec pass over the implementation's own event log)",
 ]
 ASSUMPTIONS = [
-    "durations are non-negative integers of milliseconds; instants are exact (1/8 s grid) or compared after rounding to microseconds",
-    "the harness callbacks do not raise; nesting depth of run_now inside callbacks is cut at 6 (harness and model alike)",
+    "durations are integers of milliseconds (negative ones only in external adds on the late loop); instants are exact "
+    "(1/8 s grid) or compared after rounding to microseconds; lateness values are whole microseconds",
+    "harness callbacks raise only where the case says so (a private exception class or KeyError); nesting depth of run_now "
+    "inside callbacks is cut at 6 (harness and model alike)",
+    "late dispatch: within one wake-up asyncio runs the due handles in deadline order (the acceptance condition of FireAt; "
+    "validated on every run), time does not pass inside a callback",
     "timer device: no player variables / placeholders in values, tick intervals are multiples of 1/32 s, restart_on_complete "
     "only with a start value that is not final (cfg_ok; otherwise the code recurses forever); ticks_remaining is not compared",
     "timer suite: which of the two pause() variants the tree contains is decided by a behavioural probe at worker start "
     "(c_legacy in Timer.v); timer_quiet_after_pause_or_stop holds for the patched variant only",
-    "Mode.stop -> delay.clear() is exercised on a real mode and checked by oracle; it is not part of the Coq model",
+    "mode ownership: the stop callbacks of Mode.stop(callback=..) are empty, the mode is not a game mode, the machine is "
+    "not shutting down; delayed device control events are generated through one real device (a counter of the mode with a "
+    "500 ms count event, its handlers called synchronously by the harness), other mode devices' own delays are not "
+    "(the timer device's private manager is modelled in Timer.v as an instance of the delay model); timer suite on the "
+    "late loop: the outside acts only after the loop has caught up with overdue ticks and delivered the posted events",
 ]
 
 NAMES = ["a", "b", "c"]
 MAXD = 6
 MAXLOG = 1500     # callbacks stop running their scripts once the (model-visible) log is longer than this
 MAXEV = 3000      # runaway guard: a case whose visible log grows beyond this is cut (and reported by the oracle)
-VISIBLE = ("add", "kill", "call", "check", "dict", "oof")
+VISIBLE = ("add", "kill", "call", "check", "dict", "oof", "cleared", "mode", "raise", "caught")
 _RIG = {}
 
 
@@ -93,6 +115,8 @@ def _op(rng, grid, nscripts, inside=None):
     """inside = index of the script the op is part of (None: external)."""
     r = rng.random()
     name = rng.choice([0, 0, 1, 1, 2])
+    if rng.random() < (0.07 if inside is not None else 0.02):
+        return ["raise", rng.choice([0, 1])]       # the callback / the caller raises (1: a KeyError)
     if r < 0.45:
         kind = rng.choice(["add", "add", "add", "addif", "reset"])
         anon = rng.random() < 0.12
@@ -132,7 +156,18 @@ def gen_delay(rng, tier, i):
         else:
             t += rng.choice([0, rng.randint(1, 2000) * 1000, rng.randint(1, 2000000), 333000, 1001000])
     end = t + (rng.choice([0, 125, 500, 1000, 3000]) * 1000 if grid else rng.randint(0, 3000000))
-    return {"grid": grid, "scripts": scripts, "steps": steps, "end": end}
+    case = {"grid": grid, "scripts": scripts, "steps": steps, "end": end}
+    if rng.random() < 0.3:
+        # a loop that wakes up late: lateness (whole us) of its successive wake-ups, from jitter of a few ms to jumps past
+        # several deadlines at once; on such a loop also negative durations (external adds only: due at once)
+        case["late"] = [rng.choice([0, 0, 1000, 3000, 7000, 125000, 250000, 400000, 1000000, rng.randint(1, 600000)])
+                        for _ in range(rng.choice([1, 2, 3, 5]))]
+        if rng.random() < 0.4:
+            for _, ops in steps:
+                for o in ops:
+                    if o[0] in ("add", "addif", "reset") and rng.random() < 0.4:
+                        o[1] = rng.choice([-1, -50, -500, -125])
+    return case
 
 
 # ------------------------------------------------------------------------------------------------
@@ -155,30 +190,159 @@ def _align(rig, loop):
     return t0
 
 
-def run_delay(case):
+_HOOKS = {}      # id(DelayManager) -> callable run after that manager's clear() has returned
+
+
+def _patch_clear():
+    """DelayManager.clear is wrapped at class level (the class has __slots__): after the original has returned the
+    recorder of the manager under test notes the kills and the `cleared` marker (EClear in the model).  The wrapper runs
+    in the forked worker only."""
     from mpf.core.delays import DelayManager
-    rig = _RIG["rig"]
-    loop = rig.machine.clock.loop
-    dm = DelayManager(rig.machine)
-    S = _Run()
-    S.next, S.depth, S.handles, S.live, S.codes, S.log, S.steps = 0, 0, {}, set(), {}, [], []
-    S.dead = False    # set at the end of the case / on runaway: closures of this case become no-ops
-    t0 = _align(rig, loop)
+    if getattr(DelayManager.clear, "_c13", False):
+        return
+    orig = DelayManager.clear
 
-    def now():
-        return int(round((loop.time() - t0) * 1e6))
+    def clear(self):
+        r = orig(self)
+        h = _HOOKS.get(id(self))
+        if h is not None:
+            h()
+        return r
+    clear._c13 = True
+    DelayManager.clear = clear
 
-    def vis():
-        return sum(1 for e in S.log if e[0] in VISIBLE) if len(S.log) > MAXLOG else 0
 
-    def scan_kills():
-        for u in sorted(S.live):
-            if S.handles[u].cancelled():
-                S.live.discard(u)
-                S.log.append(["kill", u])
+_LATE = {"seq": [], "i": 0}
 
-    def truth(name):
-        for h in list(loop._scheduled) + list(loop._ready):
+
+def _late_loop_class():
+    """TimeTravelLoop dispatches exactly at the earliest deadline.  This subclass wakes up late: when it has nothing
+    ready it moves the clock to the earliest deadline PLUS the next lateness of the case (several deadlines may then be
+    due at once; all lateness values are whole microseconds) and never moves the clock backwards."""
+    if "cls" in _LATE:
+        return _LATE["cls"]
+    from asyncio import base_events
+    from mpf.tests.loop import TimeTravelLoop
+
+    class LateLoop(TimeTravelLoop):
+        __slots__ = ()
+
+        def _run_once(self):
+            if len(self._ready) == 0 and not self._timers.is_empty():
+                nxt = self._timers.pop_closest()
+                seq = _LATE["seq"]
+                late = seq[_LATE["i"] % len(seq)] if seq else 0
+                _LATE["i"] += 1
+                self._time = max(self._time, nxt + late / 1e6)
+                base_events.BaseEventLoop._run_once(self)
+            else:
+                TimeTravelLoop._run_once(self)
+    _LATE["cls"] = LateLoop
+    return LateLoop
+
+
+class _Boom(Exception):
+    """what a test callback raises (kind 0); kind 1 raises KeyError, which run_now swallows"""
+
+
+class _Rec:
+    """Recorder around one DelayManager: performs the ops of a case on it, with harness closures as callbacks that
+    record (scheduled-for instant, id, kwargs, handle.cancelled()) and then run their script re-entrantly."""
+
+    def __init__(self, dm, loop, t0, scripts):
+        self.dm, self.loop, self.t0, self.scripts = dm, loop, t0, scripts
+        self.next, self.depth, self.handles, self.live, self.codes, self.log, self.steps = 0, 0, {}, set(), {}, [], []
+        self.dead = False    # set at the end of the case / on runaway: closures of this case become no-ops
+        self.raising = None  # kind of the harness exception that is propagating
+        self.exc = None
+        _HOOKS[id(dm)] = self._cleared
+        self._old_handler = loop.get_exception_handler()
+        loop.set_exception_handler(self._loop_handler)
+
+    def close(self):
+        self.dead = True
+        _HOOKS.pop(id(self.dm), None)
+        self.loop.set_exception_handler(self._old_handler)
+
+    def _loop_handler(self, loop, context):
+        # the loop's exception handler: an exception raised by a test callback that the loop ran ends here
+        if self.raising is not None and isinstance(context.get("exception"), (_Boom, KeyError)):
+            self.raising = None
+            self.log.append(["caught", 0])
+        elif self._old_handler is not None:
+            self._old_handler(loop, context)
+        else:
+            self.exc = repr(context.get("exception"))[:300]
+
+    def ctl(self, machine, event, ms):
+        """a delayed device control event arrives: the handlers registered for it run now (normally Mode.
+        _control_event_handler, which adds an anonymous delay); which manager got a new delay is observed"""
+        S, dm = self, self.dm
+        S.log.append(["ext", S.now(), S.now()])
+        S.steps.append(["ctl", S.now(), ms])
+        before = set(dm.delays)
+        other = len(machine.delay.delays)
+        for h in list(machine.events.registered_handlers.get(event, [])):
+            h.callback(**h.kwargs)
+        new = [k for k in dm.delays if k not in before]
+        if len(machine.delay.delays) != other:
+            S.log.append(["foreign", "machine.delay"])
+        for k in new:
+            S.log.append(["op", "add", -1])
+            u = S.next
+            S.next += 1
+            S.handles[u] = dm.delays[k][0]
+            S.live.add(u)
+            S.codes[k] = -1 - u
+            S.pending_ctl = getattr(S, "pending_ctl", []) + [u]
+            S.log.append(["add", S.now(), u, -1 - u, ms, -2, []])
+            S.log.append(["opend"])
+        S.dict_event()
+
+    def ctl_called(self):
+        S = self
+        S.scan_kills()
+        cand = [u for u in getattr(S, "pending_ctl", []) if u in S.live]
+        if not cand:
+            S.log.append(["call", S.now(), -1, -2, [], False, S.now()])    # a control event nobody scheduled
+            return
+        u = min(cand, key=lambda x: S.handles[x].when())
+        S.live.discard(u)
+        S.pending_ctl.remove(u)
+        t = int(round((S.handles[u].when() - S.t0) * 1e6))
+        S.steps.append(["fire" if t == S.now() else "fireat", u, S.now()])
+        S.log.append(["call", t, u, -2, [], False, S.now()])
+
+    def top(self, o):
+        """an operation made by the outside world: the caller catches what it raises"""
+        try:
+            self.do(o)
+        except (_Boom, KeyError):
+            if self.raising is None:
+                raise
+            self.raising = None
+            self.log.append(["caught", 2])
+
+    def now(self):
+        return int(round((self.loop.time() - self.t0) * 1e6))
+
+    def vis(self):
+        return sum(1 for e in self.log if e[0] in VISIBLE) if len(self.log) > MAXLOG else 0
+
+    def scan_kills(self):
+        for u in sorted(self.live):
+            if self.handles[u].cancelled():
+                self.live.discard(u)
+                self.log.append(["kill", u])
+
+    def _cleared(self):
+        if not self.dead:
+            self.scan_kills()
+            self.log.append(["cleared"])
+
+    def truth(self, name):
+        dm = self.dm
+        for h in list(self.loop._scheduled) + list(self.loop._ready):
             cb = getattr(h, "_callback", None)
             if h._cancelled or not isinstance(cb, functools.partial):
                 continue
@@ -188,37 +352,42 @@ def run_delay(case):
                 return True
         return False
 
-    def make_cb(u, cbid):
+    def make_cb(self, u, cbid):
+        S = self
+
         def cb(**kwargs):
             if S.dead:
                 return
-            if len(S.log) > MAXEV and vis() > MAXEV:
+            if len(S.log) > MAXEV and S.vis() > MAXEV:
                 S.dead = True
                 S.log.append(["runaway"])
                 return
-            scan_kills()
+            S.scan_kills()
             h = S.handles[u]
             rn = bool(h.cancelled())
+            t = S.now()
             if not rn:
                 S.live.discard(u)
+                t = int(round((h.when() - S.t0) * 1e6))          # the scheduled-for instant
                 if S.depth == 0:
-                    S.steps.append(["fire", u])
+                    S.steps.append(["fire" if t == S.now() else "fireat", u, S.now()])
             kw = []
             for k, v in sorted((int(k[1:]), v) for k, v in kwargs.items()):
                 kw += [k, v]
-            S.log.append(["call", now(), u, cbid, kw, rn])
-            if S.depth >= MAXD or vis() > MAXLOG:
+            S.log.append(["call", t, u, cbid, kw, rn, S.now()])
+            if S.depth >= MAXD or S.vis() > MAXLOG:
                 S.log.append(["oof"])
                 return
             S.depth += 1
             try:
-                for o in (case["scripts"][cbid] if cbid >= 0 else []):
-                    do(o)
+                for o in (S.scripts[cbid] if cbid >= 0 else []):
+                    S.do(o)
             finally:
                 S.depth -= 1
         return cb
 
-    def do(o):
+    def do(self, o):
+        S, dm = self, self.dm
         k = o[0]
         if S.dead:
             return
@@ -231,43 +400,76 @@ def run_delay(case):
             kwargs = {"k%d" % a: b for a, b in _pairs(kw)}
             before = dict(dm.delays)
             meth = {"add": dm.add, "addif": dm.add_if_doesnt_exist, "reset": dm.reset}[k]
-            ret = meth(ms, make_cb(u, cbid), name, **kwargs)
+            ret = meth(ms, S.make_cb(u, cbid), name, **kwargs)
             ent = dm.delays.get(ret)
-            scan_kills()
+            S.scan_kills()
             if ent is not None and ent is not before.get(ret):
                 S.handles[u] = ent[0]
                 S.live.add(u)
                 code = n if n >= 0 else -1 - u
                 S.codes[ret] = code
-                S.log.append(["add", now(), u, code, ms, cbid, kw])
+                S.log.append(["add", S.now(), u, code, ms, cbid, kw])
         elif k == "remove":
             S.log.append(["op", k, o[1]])
             dm.remove(NAMES[o[1]])
-            scan_kills()
+            S.scan_kills()
         elif k == "clear":
             S.log.append(["op", k, -1])
             dm.clear()
-            scan_kills()
+            S.scan_kills()
         elif k == "run_now":
             S.log.append(["op", k, o[1]])
-            dm.run_now(NAMES[o[1]])
-            scan_kills()
+            try:
+                dm.run_now(NAMES[o[1]])
+            finally:
+                S.scan_kills()
+            if S.raising == 1:            # run_now's `except KeyError` has swallowed the callback's KeyError
+                S.raising = None
+                S.log.append(["caught", 1])
+        elif k == "raise":
+            S.log.append(["op", k, o[1]])
+            S.log.append(["raise", o[1]])
+            S.raising = o[1]
+            raise (KeyError("c13") if o[1] == 1 else _Boom())
         elif k == "check":
             S.log.append(["op", k, o[1]])
-            S.log.append(["check", o[1], bool(dm.check(NAMES[o[1]])), truth(NAMES[o[1]])])
+            S.log.append(["check", o[1], bool(dm.check(NAMES[o[1]])), S.truth(NAMES[o[1]])])
         S.log.append(["opend"])
 
+    def ext(self, t, ops):
+        """external step: ops performed by the outside world at the (observed) instant now()"""
+        S = self
+        S.log.append(["ext", t, S.now()])
+        S.steps.append(["ext", S.now(), ops])
+        for o in ops:
+            S.top(o)
+        S.dict_event()
+
+    def dict_event(self):
+        self.log.append(["dict", [self.codes.get(k, 999) for k in self.dm.delays.keys()]])
+
+
+def run_delay(case):
+    from mpf.core.delays import DelayManager
+    _patch_clear()
+    rig = _RIG["rig"]
+    loop = rig.machine.clock.loop
+    dm = DelayManager(rig.machine)
+    t0 = _align(rig, loop)
+    S = _Rec(dm, loop, t0, case["scripts"])
+    late = case.get("late")
+    base_cls = loop.__class__
     try:
+        if late:
+            _LATE["seq"], _LATE["i"] = list(late), 0
+            loop.__class__ = _late_loop_class()
         for t, ops in case["steps"] + [[case["end"], []]]:
             d = t0 + t / 1e6 - loop.time()
             rig.advance(d if d > 0 else 0)
-            S.log.append(["ext", t, now()])
-            S.steps.append(["ext", t, ops])
-            for o in ops:
-                do(o)
-            S.log.append(["dict", [S.codes.get(k, 999) for k in dm.delays.keys()]])
+            S.ext(S.now() if late else t, ops)
     finally:
-        S.dead = True
+        loop.__class__ = base_cls
+        S.close()
         dm.clear()
     if rig.exception():
         return {"log": S.log, "steps": S.steps, "exc": repr(rig.exception())[:300]}
@@ -287,6 +489,8 @@ def _cop(o):
         return "Clear"
     if k == "run_now":
         return "(RunNow %s)" % zlit(o[1])
+    if k == "raise":
+        return "(Raise %s)" % zlit(o[1])
     return "(Check %s)" % zlit(o[1])
 
 
@@ -304,44 +508,60 @@ def _cev(e):
         return "(EDict %s)" % zlist(e[1])
     if k == "oof":
         return "EOof"
+    if k == "cleared":
+        return "EClear"
+    if k == "raise":
+        return "(ERaise %s)" % zlit(e[1])
+    if k == "caught":
+        return "(ECaught %s)" % zlit(e[1])
+    if k == "mode":
+        return "(EMode %s %s)" % (zlit(e[1]), zlit(e[2]))
     raise ValueError(k)
+
+
+def _cstep(s):
+    if s[0] == "ext":
+        return "(Ext %s %s)" % (zlit(s[1]), coqlist(_cop(o) for o in s[2]))
+    if s[0] == "fire":
+        return "(Fire %s)" % zlit(s[1])
+    return "(FireAt %s %s)" % (zlit(s[1]), zlit(s[2]))
 
 
 def coq_delay(case, out):
     if "exc" in out or ["runaway"] in out["log"][-3:] or any(e[0] == "runaway" for e in out["log"]):
         return None
     scripts = coqlist(coqlist(_cop(o) for o in s) for s in case["scripts"])
-    steps = coqlist(("(Ext %s %s)" % (zlit(s[1]), coqlist(_cop(o) for o in s[2]))) if s[0] == "ext"
-                    else "(Fire %s)" % zlit(s[1]) for s in out["steps"])
-    evs = coqlist(_cev(e) for e in out["log"] if e[0] not in ("op", "opend", "ext"))
+    steps = coqlist(_cstep(s) for s in out["steps"])
+    evs = coqlist(_cev(e) for e in out["log"] if e[0] in VISIBLE)
     return "((%s, %s), %s)" % (scripts, steps, evs)
 
 
 # ------------------------------------------------------------------------------------------------
 # oracle: the property's own predicate, evaluated on the implementation's event log
-def oracle_delay(case, out):
-    fails = []
-
-    def fail(sig, what):
-        if not any(f["sig"] == sig for f in fails):
-            fails.append({"sig": sig, "what": what})
-
-    if "exc" in out:
-        fail("exception", "the machine recorded an exception: " + out["exc"])
+def _spec_pass(log, fail, late=False, owner=False):
+    """The property's own predicate on an event log of one DelayManager: pending-by-name table kept from the
+    operations alone.  `late`: the loop of this case dispatches late (calls are compared by their scheduled-for instant,
+    the observed instant may only be later).  `owner`: the manager belongs to a mode; `mode` events 1 / 3 (stop requested
+    / stop wound up) end the ownership of everything added before."""
     live = {}            # name code -> [u, when, cb, kw]
     expect_rn = None     # a run_now on a pending delay must be followed by exactly this call
     cur_op = None
     no_add = False
     tnow = 0
-    for e in out["log"]:
+    added_before_stop = {}     # id -> which stop marker ended its ownership
+    all_ids = set()
+    last_cleared = False
+    for e in log:
         k = e[0]
         if k == "runaway":
             fail("runaway", "more than %d events in one case: callbacks keep firing" % MAXEV)
-            return fails
+            return
+        if k in VISIBLE and k not in ("cleared", "mode"):
+            last_cleared = False
         if k == "ext":
             if e[1] != e[2]:
                 fail("clock", "virtual clock at %d, wanted %d" % (e[2], e[1]))
-            tnow = e[1]
+            tnow = e[2]
             for n, x in live.items():
                 if x[1] < tnow:
                     fail("missed-deadline", "delay %r (id %d) due at %d had not fired by %d" % (n, x[0], x[1], tnow))
@@ -368,8 +588,26 @@ def oracle_delay(case, out):
             if no_add:
                 fail("addif-replaced", "add_if_doesnt_exist scheduled although the name was pending")
             live[e[3]] = [e[2], e[1] + 1000 * e[4], e[5], e[6]]
+            all_ids.add(e[2])
+        elif k == "cleared":
+            # clear() has returned (called by an op or by the owner's lifecycle): nothing may be pending
+            live.clear()
+            last_cleared = True
+        elif k == "mode":
+            if e[1] in (1, 3):
+                if not last_cleared:
+                    fail("mode-stop-without-clear", "mode lifecycle step %d at %d did not clear mode.delay" % (e[1], e[2]))
+                live.clear()
+                for u in all_ids:
+                    added_before_stop.setdefault(u, (e[1], e[2]))
         elif k == "call":
-            _, t, u, cb, kw, rn = e
+            t, u, cb, kw, rn = e[1:6]
+            obs = e[6] if len(e) > 6 else t
+            if u in added_before_stop:
+                c, ts = added_before_stop[u]
+                fail("mode-delay-fired-while-stopping" if c == 1 else "mode-delay-survived-stop",
+                     "delay id %d, added before the mode's stop was %s at %d, ran at %d" %
+                     (u, "requested" if c == 1 else "wound up", ts, obs))
             if expect_rn is not None:
                 x, expect_rn = expect_rn, None
                 if u != x[0] or not rn:
@@ -383,15 +621,21 @@ def oracle_delay(case, out):
                 hit = [n for n, x in live.items() if x[0] == u]
                 if not hit:
                     fail("fired-not-pending", "callback id %d ran at %d although it was removed/replaced/cleared/"
-                                              "already run" % (u, t))
+                                              "already run" % (u, obs))
                 else:
                     x = live.pop(hit[0])
                     if t != x[1]:
-                        fail("wrong-time", "id %d ran at %d, promised %d" % (u, t, x[1]))
+                        fail("wrong-time", "id %d was scheduled for %d, promised %d" % (u, t, x[1]))
+                    if obs < t or (obs != t and not late):
+                        fail("wrong-time", "id %d ran at %d, promised %d" % (u, obs, x[1]))
                     if kw != x[3]:
                         fail("wrong-kwargs", "id %d ran with %r, stored %r" % (u, kw, x[3]))
                     if rn:
                         fail("fired-cancelled", "id %d ran from a cancelled handle" % u)
+                    # deadline order: nothing that was due earlier may still be pending
+                    for n2, x2 in live.items():
+                        if x2[1] < x[1]:
+                            fail("deadline-order", "id %d (due %d) ran before id %d (due %d)" % (u, x[1], x2[0], x2[1]))
         elif k == "check":
             want = e[1] in live
             if e[2] != want:
@@ -404,6 +648,18 @@ def oracle_delay(case, out):
                 fail("dict-mismatch", "DelayManager.delays has %r, pending per spec %r" % (names, sorted(live.keys())))
     if expect_rn is not None:
         fail("run-now-no-call", "run_now did not call the pending callback")
+
+
+def oracle_delay(case, out):
+    fails = []
+
+    def fail(sig, what):
+        if not any(f["sig"] == sig for f in fails):
+            fails.append({"sig": sig, "what": what})
+
+    if "exc" in out:
+        fail("exception", "the machine recorded an exception: " + out["exc"])
+    _spec_pass(out["log"], fail, late=bool(case.get("late")))
     return fails
 
 
@@ -420,6 +676,9 @@ def _shrink_ops(ops):
 
 def shrink_delay(case):
     st = case["steps"]
+    if case.get("late") and len(case["late"]) > 1:
+        yield dict(case, late=case["late"][:1])
+        yield dict(case, late=case["late"][1:])
     for i in range(len(st)):
         if len(st) > 1:
             yield dict(case, steps=st[:i] + st[i + 1:])
@@ -449,7 +708,9 @@ def describe_delay(case):
         for o in s:
             out.append("cb:" + o[0])
     kinds = sorted(set(out))
-    return ("grid " if case["grid"] else "ms ") + ("reentrant" if any(k.startswith("cb:") for k in kinds) else "flat")
+    neg = any(o[0] in ("add", "addif", "reset") and o[1] < 0 for _, ops in case["steps"] for o in ops)
+    return ("grid " if case["grid"] else "ms ") + ("reentrant" if any(k.startswith("cb:") for k in kinds) else "flat") + \
+        (" late" if case.get("late") else "") + (" negative" if neg else "")
 
 
 # ------------------------------------------------------------------------------------------------
@@ -461,7 +722,7 @@ def gen_periodic(rng, tier, i):
     else:
         ival = rng.choice([rng.randint(20, 900) * 1000, 100000, 333000, 16667])
     n = rng.choice([0, 1, 2, 3, 5, 8, 13, 40])
-    # cancel exactly on a deadline, or somewhere in the second half of an interval (late wake-ups stay below ival/3)
+    # cancel exactly on a deadline, or somewhere in the second half of an interval
     r = rng.random()
     if r < 0.4:
         cancel = n * ival
@@ -470,17 +731,23 @@ def gen_periodic(rng, tier, i):
     else:
         cancel = None
     horizon = (cancel if cancel is not None else n * ival) + rng.choice([0, ival, 2 * ival + ival // 2, 5 * ival])
-    lates = rng.choice([[0], [0], [ival // 4], [0, ival // 3, 1, ival // 8], [ival // 8, 0, 0]])
+    # lateness of the successive wake-ups of the scheduler: none, jitter below an interval, or more than one interval
+    # (the task then has to catch up: one call per missed interval, each scheduled for t0 + k*ival)
+    lates = rng.choice([[0], [0], [ival // 4], [0, ival // 3, 1, ival // 8], [ival // 8, 0, 0],
+                        [0, 2 * ival + ival // 3, 0, 0], [3 * ival + 1, 0], [ival, 0, ival + ival // 2],
+                        [rng.randint(0, 4 * ival), 0, rng.randint(0, ival)]])
     if cancel is not None and cancel % ival == 0 and not rng.random() < 0.5:
         tick_first = False
     else:
         tick_first = True
-    return {"ival": ival, "cancel": cancel, "horizon": horizon, "lates": lates, "grid": grid, "tick_first": tick_first}
+    # cancel() arrives (from another callback of the same late batch) while ticks are overdue but not yet dispatched
+    return {"ival": ival, "cancel": cancel, "horizon": horizon, "lates": lates, "grid": grid, "tick_first": tick_first,
+            "cancel_overdue": rng.random() < 0.4}
 
 
 class _LateLoop:
     """The two methods PeriodicTask needs from a loop, on a scheduler that may wake up late: a handle with deadline
-    `when` runs at `when + late` (late >= 0 taken from the case), so that _run sees time() > deadline."""
+    `when` runs at max(now, when + late) (late >= 0 taken from the case), so that _run sees time() > deadline."""
 
     def __init__(self, t0):
         self.t = t0
@@ -505,32 +772,43 @@ def run_periodic(case):
         return int(round((x - t0) * 1e6))
 
     def cb():
-        calls.append(us(cur[0]))
+        calls.append(us(cur[0]))          # the scheduled-for instant of this call
 
     pt = PeriodicTask(ival / 1e6, loop, cb)
+    nrun = [0]
+    cyclic = max(lates) < ival
 
-    def run_until(t_us, inclusive):
+    def run_until(t_us, inclusive, flush):
+        """run the handles the loop dispatches before the outside acts at (planned) t_us; flush: also everything that is
+        overdue at the present instant (the loop never goes back in time)"""
         n = 0
         while loop.h and n < 10000:
             when, f = min(loop.h, key=lambda x: x[0])
             w = us(when)
-            if w > t_us or (w == t_us and not inclusive):
+            due = w < t_us or (w == t_us and inclusive)
+            if not due and not (flush and w < us(loop.t)):
                 break
             loop.h.remove((when, f))
-            loop.t = max(loop.t, when + lates[len(order) % len(lates)] / 1e6)
+            # jitter below an interval repeats for ever; lateness of an interval or more happens once per entry
+            # (a loop that is for ever later than the interval never catches up)
+            i = nrun[0]
+            late = lates[i % len(lates)] if (cyclic or i < len(lates)) else 0
+            loop.t = max(loop.t, when + late / 1e6)
+            nrun[0] += 1
             cur[0] = when
-            order.append("run")
+            order.append(["run", us(loop.t)])
             n += 1
             f()
 
     if case["cancel"] is not None:
-        run_until(case["cancel"], case["tick_first"])
+        run_until(case["cancel"], case["tick_first"], not case.get("cancel_overdue"))
         loop.t = max(loop.t, t0 + case["cancel"] / 1e6)
-        order.append("cancel")
+        order.append(["cancel", us(loop.t)])
         pt.cancel()
-    run_until(case["horizon"], True)
+    run_until(case["horizon"], True, True)
     loop.t = max(loop.t, t0 + case["horizon"] / 1e6)
-    order.append("at")
+    run_until(us(loop.t), True, True)
+    order.append(["at", us(loop.t)])
     nxt = us(pt.get_next_call_time())
     pt.cancel()
     return {"calls": calls, "order": order, "next": nxt, "pending": sorted(us(w) for w, _ in loop.h)}
@@ -538,13 +816,13 @@ def run_periodic(case):
 
 def coq_periodic(case, out):
     steps = []
-    for o in out["order"]:
+    for o, t in out["order"]:
         if o == "run":
-            steps.append("PRun")
+            steps.append("(PRunAt %s)" % zlit(t))
         elif o == "cancel":
-            steps.append("(PCancel %s)" % zlit(case["cancel"]))
+            steps.append("(PCancelAt %s)" % zlit(t))
         else:
-            steps.append("(PAt %s)" % zlit(case["horizon"]))
+            steps.append("(PAt %s)" % zlit(t))
     exp = "(%s, %s)" % (coqlist("(PCalled %s)" % zlit(t) for t in out["calls"]), zlit(out["next"]))
     return "((0, %s, %s), %s)" % (zlit(case["ival"]), coqlist(steps), exp)
 
@@ -555,17 +833,23 @@ def oracle_periodic(case, out):
     calls = out["calls"]
     for k, t in enumerate(calls):
         if t != (k + 1) * ival:
-            fails.append({"sig": "periodic-drift", "what": "tick %d at %d us, expected %d" % (k + 1, t, (k + 1) * ival)})
+            fails.append({"sig": "periodic-drift", "what": "tick %d scheduled for %d us, expected %d" % (k + 1, t, (k + 1) * ival)})
+            break
+    runs = [t for o, t in out["order"] if o == "run"]
+    for k, (t, obs) in enumerate(zip(calls, runs)):
+        if obs < t:
+            fails.append({"sig": "periodic-early", "what": "tick %d ran at %d, before its instant %d" % (k + 1, obs, t)})
             break
     cancelled = case["cancel"] is not None
-    stop = case["cancel"] if cancelled else case["horizon"]
+    obs_stop = [t for o, t in out["order"] if o == ("cancel" if cancelled else "at")][0]
+    stop = case["cancel"] if cancelled else obs_stop
     lo = (stop - 1) // ival if stop > 0 else 0      # ticks strictly before `stop` must have happened
-    hi = stop // ival                               # ticks after `stop` must not (a tick exactly at `stop` may go either way)
+    hi = obs_stop // ival                           # ticks after the (observed) stop must not
     if len(calls) < lo:
         fails.append({"sig": "periodic-missed", "what": "%d ticks by %d, interval %d" % (len(calls), stop, ival)})
     if len(calls) > hi:
         fails.append({"sig": "periodic-after-cancel" if cancelled else "periodic-extra",
-                      "what": "%d ticks, %s at %d, interval %d" % (len(calls), "cancelled" if cancelled else "looked", stop, ival)})
+                      "what": "%d ticks, %s at %d, interval %d" % (len(calls), "cancelled" if cancelled else "looked", obs_stop, ival)})
     return fails
 
 
@@ -587,6 +871,7 @@ SUITES = [
     Suite("periodic", gen_periodic, run_periodic, HDR_PERIODIC, coq_periodic, oracle_periodic, shrink_periodic,
           lambda c, o: len(o.get("calls", [])) >= 2, {"quick": 1000, "thorough": 30000},
           shard=500, describe=lambda c: ("grid" if c["grid"] else "ms") + (" late" if c["lates"] != [0] else "") +
+          (" catch-up" if max(c["lates"]) > c["ival"] else "") +
           (" nocancel" if c["cancel"] is None else " cancel@deadline" if c["cancel"] % c["ival"] == 0 else " cancel")),
 ]
 
@@ -595,15 +880,24 @@ LEVEL_TEXT = ("Machine-checked proof (Coq) over an executable model of DelayMana
               "from inside delay callbacks, and every legal firing order, each callback run is justified by exactly one "
               "add (same callback, same kwargs, at exactly add time + ms unless run by run_now), runs at most once, never "
               "after its handle was cancelled; every added delay whose deadline has passed was run or cancelled; check() "
-              "equals the existence of a live handle; PeriodicTask ticks at t0+k*interval exactly and never after cancel; "
+              "equals the existence of a live handle; all of this also when the loop dispatches late (calls are identified by "
+              "their scheduled-for instants) and for negative durations; clear() is final (nothing added before it is ever "
+              "called after it); a mode's stop request and the wind-up of its stop both clear the mode's manager, so no "
+              "delay owned by a mode fires after the stop was requested, for all lifecycle histories incl. held queues and "
+              "restarts re-adding the same names; PeriodicTask ticks at t0+k*interval exactly (scheduled-for; catch-up "
+              "when dispatched more than an interval late) and never after cancel; "
+              "callbacks that raise (entry gone, other delays untouched, KeyError swallowed by run_now); "
               "timer device: tick events only from a running timer, nothing happens by itself after stop / pause without "
-              "duration, complete exactly at the end value, tick instants exact. "
+              "duration, complete exactly at the end value, tick instants exact also under late dispatch (re-arm at "
+              "base+(n+1)*interval whatever the dispatch instant), its pause delay is an instance of the delay model "
+              "(invariant proved on every reachable timer state, so the delay theorems apply to it). "
               "The model is tied to the working tree by running both on the same generated histories on every run.")
 LEVEL_NOTE = ("Trusted: Coq kernel + vm_compute; no axioms. Model hand-written; correspondence validates it against the "
               "working tree (real DelayManager/PeriodicTask on mpf's TimeTravelLoop); asyncio's handle semantics "
               "(a cancelled handle never runs, due handles run no earlier than their deadline) are modelled as the "
               "acceptance conditions of Fire/Ext steps and validated on every run. Timer device: model Timer.v tied the same "
-              "way to real timers of a real mode; mode-owned delays: oracle on a real mode's stop.")
+              "way to real timers of a real mode; mode-owned delays: Owner.v tied to a real mode's lifecycle (calls observed "
+              "through recording wrappers, effects predicted) plus the ownership oracle.")
 TECHNIQUE = "Coq proof over hand-written executable model + differential correspondence (vm_compute) + direct spec oracle"
 DESIGN_REF = "DESIGN.md section 3, C13"
 
@@ -654,10 +948,15 @@ def _init_timer_rig():
     import logging
     logging.disable(logging.CRITICAL)
     from rig import Rig
+    _patch_mode()
+    _patch_clear()
     if "rig" not in _TRIG:
         mode = {"mode": {"start_events": "start_m1", "stop_events": "stop_m1", "game_mode": False},
                 "timers": _timer_config()}
-        mode2 = {"mode": {"start_events": "start_m2", "stop_events": "stop_m2", "game_mode": False}}
+        # m2: the mode whose lifecycle is exercised; its counter has a DELAYED control event (500 ms)
+        mode2 = {"mode": {"start_events": "start_m2", "stop_events": "stop_m2", "game_mode": False},
+                 "counters": {"c1": {"count_events": {"m2_c1_count": "%dms" % CTL_MS}, "starting_count": 0,
+                                     "count_complete_value": 1000000}}}
         rig = Rig({"modes": ["m1", "m2"]}, modes={"m1": mode, "m2": mode2}).start()
         _TRIG["rig"] = rig
         # which code is this?  behavioural probe of the recorded defect `timer-pause-not-superseded`
@@ -697,7 +996,12 @@ def gen_timer(rng, tier, i):
                 halves += 1
         ops.append([t, a])
     end = t + rng.choice([0, 500, 1000, 2000, 4000]) * 1000
-    return {"timer": ti, "ops": ops, "end": end}
+    case = {"timer": ti, "ops": ops, "end": end}
+    if rng.random() < 0.25:
+        # the loop dispatches late (see _late_loop_class): jitter, or jumps past several tick / pause deadlines
+        case["late"] = [rng.choice([0, 0, 1000, 3000, 7000, 125000, 300000, 700000, 1200000, rng.randint(1, 900000)])
+                        for _ in range(rng.choice([1, 2, 3, 5]))]
+    return case
 
 
 def run_timer(case):
@@ -716,9 +1020,15 @@ def run_timer(case):
     orig_tick = type(timer)._timer_tick.__get__(timer)
     orig_start = type(timer).start.__get__(timer)
 
+    def sched():
+        # the instant this tick was scheduled for: PeriodicTask._run has just advanced _last_call to it
+        return int(round((timer.timer._last_call - t0box[0]) * 1e6)) if timer.timer is not None else -1
+
     def tick_w():
         S.stepno += 1
-        S.steps.append(["firetick", now()])
+        S.steps.append(["firetick", now(), sched()])
+        if late:
+            S.events.append(["due", sched(), None, S.stepno])
         S.busy = True
         try:
             return orig_tick()
@@ -737,6 +1047,12 @@ def run_timer(case):
             S.busy = False
 
     keys = []
+    late = case.get("late")
+    base_cls = loop.__class__
+
+    def pause_due():
+        ent = timer.delay.delays.get("pause")
+        return int(round((ent[0].when() - t0box[0]) * 1e6)) if ent is not None else -1
 
     def mk(kind):
         def h(**kwargs):
@@ -764,10 +1080,25 @@ def run_timer(case):
         for kind in T_KINDS:
             keys.append(m.events.add_handler("timer_%s_%s" % (name, kind), mk(kind)))
         t0box[0] = t0
+        if late:
+            _LATE["seq"], _LATE["i"] = list(late), 0
+            loop.__class__ = _late_loop_class()
         for t, a in case["ops"] + [[case["end"], "nop"]]:
             d = t0box[0] + t / 1e6 - loop.time()
             rig.advance(d if d > 0 else 0)
+            if late:
+                # the outside world acts when the loop has caught up: a system timer that was dispatched more than an
+                # interval late re-arms in the past and needs one more loop iteration per missed tick
+                # (advance(0) = three iterations at the same instant); then once more so that the events posted by the
+                # last tick are delivered before the outside acts
+                for _ in range(200):
+                    rig.advance(0)
+                    if timer.timer is None or timer.timer.get_next_call_time() > loop.time():
+                        break
+                rig.advance(0)
             S.stepno += 1
+            if late:
+                t = now()
             S.steps.append(["ext", t, a, now()])
             if a != "nop":
                 m.events.post("%s_%s" % (name, a), _ext=1)
@@ -777,8 +1108,9 @@ def run_timer(case):
                 finally:
                     S.busy = False
             S.events.append(["state", t, bool(timer.running), timer.ticks, "pause" in timer.delay.delays,
-                             timer.timer is not None, S.stepno])
+                             timer.timer is not None, pause_due(), S.stepno])
     finally:
+        loop.__class__ = base_cls
         t0box[0] = None
         for k in keys:
             m.events.remove_handler_by_key(k)
@@ -836,14 +1168,23 @@ _TEV = {"started": "TStarted", "stopped": "TStopped", "paused": "TPaused", "comp
 def coq_timer(case, out):
     if "exc" in out:
         return None
-    steps = coqlist("(TExt %s %s)" % (zlit(s[1]), _caction(s[2])) if s[0] == "ext" else
-                    ("TFireTick" if s[0] == "firetick" else "TFirePause") for s in out["steps"])
+    late = bool(case.get("late"))
+
+    def cst(s):
+        if s[0] == "ext":
+            return "(TExt %s %s)" % (zlit(s[1]), _caction(s[2]))
+        if late:
+            return "(%s %s)" % ("TFireTickAt" if s[0] == "firetick" else "TFirePauseAt", zlit(s[1]))
+        return "TFireTick" if s[0] == "firetick" else "TFirePause"
+    steps = coqlist(cst(s) for s in out["steps"])
     evs = []
     for e in out["events"]:
         if e[0] == "tick":
             evs.append("(TTick %s %s %s)" % (zlit(e[1]), zlit(e[2]), blit(e[4])))
         elif e[0] == "state":
-            evs.append("(TState %s %s %s %s %s)" % (zlit(e[1]), blit(e[2]), zlit(e[3]), blit(e[4]), blit(e[5])))
+            evs.append("(TState %s %s %s %s %s %s)" % (zlit(e[1]), blit(e[2]), zlit(e[3]), blit(e[4]), blit(e[5]), zlit(e[6])))
+        elif e[0] == "due":
+            evs.append("(TDue %s)" % zlit(e[1]))
         else:
             evs.append("(%s %s %s)" % (_TEV[e[0]], zlit(e[1]), zlit(e[2])))
     return "((%s, %s), %s)" % (_tcfg(case["timer"], out.get("legacy", False)), steps, coqlist(evs))
@@ -867,6 +1208,7 @@ def oracle_timer(case, out):
         return end is not None and (k <= end if down else k >= end)
 
     acts = dict((x[0], (x[1], x[2])) for x in T_ACTIONS)
+    late = bool(case.get("late"))
     by_step = {}
     for e in out["events"]:
         by_step.setdefault(e[-1] if e[0] == "state" else e[3], []).append(e)
@@ -902,26 +1244,33 @@ def oracle_timer(case, out):
                 resume_at = None
         elif s[0] == "firetick":
             t = s[1]
+            due = s[2] if len(s) > 2 and s[2] >= 0 else t      # the instant the loop had scheduled this tick for
             if any(e[0] == "tick" for e in evs) or any(e[0] in ("complete",) for e in evs):
                 if not running:
                     fail("tick-while-not-running", "the timer counted at %d while stopped/paused" % t)
-                if next_tick is not None and t != next_tick:
-                    fail("timer-tick-instant", "tick at %d, due at %s" % (t, next_tick))
+                if next_tick is not None and due != next_tick:
+                    fail("timer-tick-instant", "tick scheduled for %d, due at %s" % (due, next_tick))
+                if t < due or (t != due and not late):
+                    fail("timer-tick-instant", "tick ran at %d, due at %s" % (t, due))
             if running:
-                next_tick = t + ival
+                next_tick = due + ival
         elif s[0] == "firepause":
             t = s[1]
-            if resume_at != t:
+            if (resume_at != t) if not late else (resume_at is None or t < resume_at):
                 # the recorded defect: pause() does not remove the delay of an earlier timed pause.  It is exactly that
                 # when the expiring delay stems from a timed pause after which the timer never started or stopped.
-                stale = [x for x in timed if x[0] == t]
+                stale = [x for x in timed if (x[0] == t if not late else x[0] <= t)]
                 if out.get("legacy") and stale and stale[-1][1]:
                     fail("timer-pause-not-superseded", "pause at %s did not cancel the pending timed pause: start() ran at %d"
                          % ("(no end)" if resume_at is None else resume_at, t))
                 else:
                     fail("timer-resumed-while-paused", "a stale pause delay called start() at %d; the commanded pause "
                          "%s" % (t, "has no end" if resume_at is None else "ends at %d" % resume_at))
-            timed[:] = [x for x in timed if x[0] != t]
+            if late:
+                gone = [x for x in timed if x[0] <= t][:1]
+                timed[:] = [x for x in timed if x not in gone]
+            else:
+                timed[:] = [x for x in timed if x[0] != t]
             resume_at = None
         for e in evs:
             k = e[0]
@@ -956,6 +1305,8 @@ def shrink_timer(case):
     ops = case["ops"]
     for i in range(len(ops)):
         yield dict(case, ops=ops[:i] + ops[i + 1:])
+    if case.get("late") and len(case["late"]) > 1:
+        yield dict(case, late=case["late"][:1])
     if case["end"] > (ops[-1][0] if ops else 0):
         yield dict(case, end=(ops[-1][0] if ops else 0))
 
@@ -969,107 +1320,269 @@ SUITES.append(Suite("timer", gen_timer, run_timer,
                     "From C13 Require Import Timer.\nDefinition run := timer_run.\nDefinition out_eqb := timer_out_eqb.\n",
                     coq_timer, oracle_timer, shrink_timer, nontrivial_timer, {"quick": 1500, "thorough": 40000},
                     worker_init=_init_timer_rig, shard=300,
-                    describe=lambda c: TIMERS[c["timer"]][0] + (" pause" if any(o[1].startswith("pause") for o in c["ops"]) else "")))
+                    describe=lambda c: TIMERS[c["timer"]][0] + (" pause" if any(o[1].startswith("pause") for o in c["ops"]) else "") +
+                    (" late" if c.get("late") else "")))
 
 
 # ================================================================================================
-# mode-owned delays: Mode.delay through a real mode's stop (mode.py stop/_stopped/_mode_stopped_callback)
-def _dl(rng, k):
-    return [rng.choice([0, 0, 125, 125, 250, 500, 1000, 2000]) for _ in range(k)]
+# mode-owned delays: Mode.delay through a real mode's lifecycle (mode.py start/_started/stop/_stopped/
+# _mode_stopped_callback); model coq/C13/Owner.v
+_MH = {"mode": None, "rec": None, "depth": 0}
+CTL_MS = 500
+_LIFE = {"start": "mstart", "_started": "mstarted", "stop": "mstop", "_stopped": "mstopped",
+         "_mode_stopped_callback": "mwoundup"}
+
+
+def _mode_flags(mode):
+    return (1 if mode._active else 0) + (2 if mode.stopping else 0) + (4 if mode._starting else 0) + \
+        (8 if mode._cleanup_pending else 0)
+
+
+def _patch_mode():
+    """Mode has __slots__, so its lifecycle methods are wrapped at class level (forked worker only; must happen before the
+    machine boots because the start handler is bound at boot).  A call on the mode under test, made by the machine (not
+    nested in another lifecycle call), becomes a step of the history; what it did is read off the flags before/after."""
+    from mpf.core.mode import Mode
+    if getattr(Mode.stop, "_c13", False):
+        return
+
+    def wrap(name):
+        orig = getattr(Mode, name)
+
+        def w(self, *args, **kwargs):
+            S = _MH["rec"]
+            if self is not _MH["mode"] or S is None or S.dead or _MH["depth"] > 0:
+                return orig(self, *args, **kwargs)
+            t = S.now()
+            before = _mode_flags(self)
+            S.steps.append([_LIFE[name], t])
+            S.log.append(["life", name, t])
+            _MH["depth"] += 1
+            try:
+                return orig(self, *args, **kwargs)
+            finally:
+                _MH["depth"] -= 1
+                S.scan_kills()
+                after = _mode_flags(self)
+                if name == "stop":
+                    S.log.append(["mode", 1 if (after & 2) and not (before & 2) else 0, t])
+                elif name == "_stopped":
+                    S.log.append(["mode", 2, t])
+                elif name == "_mode_stopped_callback":
+                    S.log.append(["mode", 3 if (before & 8) and not (after & 8) else 0, t])
+                elif name == "start":
+                    if (after & 4) and not (before & 4):
+                        if (before & 8) and not (after & 8):
+                            S.log.append(["mode", 3, t])
+                        S.log.append(["mode", 4, t])
+                    else:
+                        S.log.append(["mode", 0, t])
+                else:
+                    S.log.append(["mode", 5, t])
+                S.log.append(["mode", 16 + after, t])
+                S.dict_event()
+        w._c13 = True
+        return w
+    for name in _LIFE:
+        setattr(Mode, name, wrap(name))
+    # the device method a delayed control event of m2 ends in: recorded as the call of that delay
+    from mpf.devices.logic_blocks import Counter
+    orig_count = Counter.event_count
+
+    def event_count(self, **kwargs):
+        S = _MH["rec"]
+        if S is not None and not S.dead and self.name == "c1":
+            S.ctl_called()
+        return orig_count(self, **kwargs)
+    Counter.event_count = event_count
+
+
+def _mops(rng, nscripts, k):
+    return [_op(rng, True, nscripts) for _ in range(k)]
 
 
 def gen_modestop(rng, tier, i):
-    stop_at = rng.choice([0, 125, 250, 500, 1000]) * 1000
+    ns = rng.choice([0, 1, 2, 3])
+    scripts = [[_op(rng, True, ns, inside=j) for _ in range(rng.choice([0, 1, 1, 2]))] for j in range(ns)]
+    pre, t = [], 0
+    for _ in range(rng.choice([0, 1, 1, 2])):
+        pre.append([t, _mops(rng, ns, rng.choice([1, 2, 3]))])
+        t += rng.choice([0, 125, 250, 500]) * 1000
+    stop_at = t + rng.choice([0, 125, 250, 500, 1000]) * 1000
     hold = rng.choice([0, 0, 0, 125, 250, 500]) * 1000
-    return {"pre": _dl(rng, rng.choice([0, 1, 2, 3])), "stop_at": stop_at,
-            "stopping": _dl(rng, rng.choice([0, 1, 1, 2])), "stopping_via": rng.choice(["mode", "machine"]),
-            "stopped": _dl(rng, rng.choice([0, 0, 1, 2])), "stopped_via": rng.choice(["mode", "machine"]),
-            "hold": hold, "window": _dl(rng, rng.choice([0, 1, 2])) if hold else [],
-            "restart": rng.random() < 0.4, "end": stop_at + hold + rng.choice([500, 1000, 2500]) * 1000}
+    restart = rng.choice([None, None, "handler", "later", "later"])
+    post = []
+    if restart:
+        for _ in range(rng.choice([0, 1, 2])):
+            post.append([rng.choice([0, 125, 250]) * 1000, _mops(rng, ns, rng.choice([1, 2]))])
+    return {"scripts": scripts, "pre": pre, "stop_at": stop_at,
+            "stopping": _mops(rng, ns, rng.choice([0, 1, 1, 2])), "stopping_via": rng.choice(["mode", "machine"]),
+            "stopped": _mops(rng, ns, rng.choice([0, 0, 1, 2])), "stopped_via": rng.choice(["mode", "machine"]),
+            "hold": hold, "window": _mops(rng, ns, rng.choice([0, 1, 2])) if hold else [],
+            "stop_again": rng.choice([None, None, "stopping", "idle"]),
+            # a delayed (500 ms) control event of the mode's counter is posted: before the stop (so that it is pending at the
+            # request or fires before it), while the queue is held, after the stop has wound up, after the restart
+            "ctl": [w for w in ("pre", "window", "idle", "post") if rng.random() < 0.25],
+            "restart": restart, "post": post, "stop2": bool(restart) and rng.random() < 0.5,
+            "tail": rng.choice([500, 1000, 2500]) * 1000}
 
 
 def run_modestop(case):
+    _patch_clear()
     rig = _TRIG["rig"]
     m = rig.machine
     loop = m.clock.loop
     mode = m.modes["m2"]
-    log = []
-    t0box = [None]
-    S = _Run()
-    S.n, S.queue, S.dead = 0, None, False
-
-    def now():
-        return int(round((loop.time() - t0box[0]) * 1e6))
-
-    def add(ms, phase):
-        u = S.n
-        S.n += 1
-
-        def cb(**kwargs):
-            if not S.dead:
-                log.append(["call", now(), u, phase])
-        mode.delay.add(ms, cb, None if u % 2 else "d%d" % u)
-        log.append(["add", now(), u, phase, ms])
-
-    def on_stopping(queue=None, **kwargs):
-        log.append(["stopping", now()])
-        for ms in case["stopping"]:
-            add(ms, "stopping")
-        if case["hold"] and queue is not None:
-            queue.wait()
-            S.queue = queue
-
-    def on_stopped(**kwargs):
-        log.append(["stopped-event", now()])
-        for ms in case["stopped"]:
-            add(ms, "stopped")
-
+    S = None
     keys = []
+    hold = {"queue": None, "n": 0}
     try:
         rig.post("start_m2")
         rig.advance(0.125)
         if not mode.active:
             return {"harness_error": "mode did not start"}
-        t0box[0] = _align(rig, loop)
-        for ev, via, h in (("mode_m2_stopping", case["stopping_via"], on_stopping),
-                           ("mode_m2_stopped", case["stopped_via"], on_stopped)):
-            if via == "mode":
-                mode.add_mode_event_handler(ev, h)
-            else:
-                keys.append(m.events.add_handler(ev, h))
-        for ms in case["pre"]:
-            add(ms, "pre")
-        rig.advance(case["stop_at"] / 1e6)
-        log.append(["stop", now()])
+        t0 = _align(rig, loop)
+        S = _Rec(mode.delay, loop, t0, case["scripts"])
+        _MH["mode"], _MH["rec"], _MH["depth"] = mode, S, 0
+        flags0 = _mode_flags(mode)
+
+        def inside(ops):
+            # mode code (an event handler of the mode) uses mode.delay from inside the loop
+            S.log.append(["ext", S.now(), S.now()])
+            S.steps.append(["ext", S.now(), ops])
+            for o in ops:
+                S.top(o)
+            S.dict_event()
+
+        def on_stopping(queue=None, **kwargs):
+            hold["n"] += 1
+            if hold["n"] > 1:
+                inside([])
+                return
+            inside(case["stopping"])
+            if case["hold"] and queue is not None:
+                queue.wait()
+                hold["queue"] = queue
+
+        def on_stopped(**kwargs):
+            hold["m"] = hold.get("m", 0) + 1
+            if hold["m"] > 1:
+                inside([])
+                return
+            inside(case["stopped"])
+            if case["restart"] == "handler":
+                m.events.post("start_m2")
+
+        def reg():
+            for ev, via, h in (("mode_m2_stopping", case["stopping_via"], on_stopping),
+                               ("mode_m2_stopped", case["stopped_via"], on_stopped)):
+                if via == "mode":
+                    mode.add_mode_event_handler(ev, h)
+                else:
+                    keys.append(m.events.add_handler(ev, h))
+        reg()
+
+        def goto(t):
+            d = t0 + t / 1e6 - loop.time()
+            rig.advance(d if d > 0 else 0)
+
+        def settle():
+            # the lifecycle is a chain of queued events and tasks: let the loop finish it (no virtual time passes)
+            for _ in range(5):
+                rig.advance(0)
+
+        ctl = case.get("ctl", [])
+        for t, ops in case["pre"]:
+            goto(t)
+            S.ext(t, ops)
+        if "pre" in ctl:
+            S.ctl(m, "m2_c1_count", CTL_MS)
+        goto(case["stop_at"])
+        S.log.append(["stop-request", S.now()])
         rig.post("stop_m2")
+        settle()
+        t = case["stop_at"]
         if case["hold"]:
-            rig.advance(case["hold"] / 1e6)
-            for ms in case["window"]:
-                add(ms, "window")
-            if S.queue is not None:
-                S.queue.clear()
-            rig.advance(0)
-        fin = (not mode.active) and (not mode._cleanup_pending) and (not mode.stopping)
-        log.append(["finished", now(), fin, sorted(str(k)[:3] for k in mode.delay.delays.keys())])
-        if case["restart"]:
-            rig.advance(0.125)
+            if case["stop_again"] == "stopping":
+                mode.stop()
+            t += case["hold"]
+            goto(t)
+            S.ext(t, case["window"])
+            if "window" in ctl:
+                S.ctl(m, "m2_c1_count", CTL_MS)
+            if hold["queue"] is not None:
+                hold["queue"].clear()
+            settle()
+        if case["restart"] != "handler":
+            fin = (not mode.active) and (not mode._cleanup_pending) and (not mode.stopping)
+            S.log.append(["finished", S.now(), fin, len(mode.delay.delays)])
+            if case["stop_again"] == "idle":
+                mode.stop()
+            if "idle" in ctl:
+                S.ctl(m, "m2_c1_count", CTL_MS)
+        if case["restart"] == "later":
+            t += 125000
+            goto(t)
             rig.post("start_m2")
-            log.append(["restarted", now(), bool(mode.active)])
-        d = t0box[0] + case["end"] / 1e6 - loop.time()
-        rig.advance(d if d > 0 else 0)
-        log.append(["end", now(), len(mode.delay.delays)])
+            settle()
+        if case["restart"]:
+            S.log.append(["restarted", S.now(), bool(mode.active)])
+            if "post" in ctl:
+                S.ctl(m, "m2_c1_count", CTL_MS)
+            for dt, ops in case["post"]:
+                t += dt
+                goto(t)
+                S.ext(t, ops)
+            if case["stop2"]:
+                t += 125000
+                goto(t)
+                S.log.append(["stop-request", S.now()])
+                rig.post("stop_m2")
+                settle()
+                S.log.append(["finished", S.now(), not mode.active and not mode._cleanup_pending, len(mode.delay.delays)])
+        goto(t + case["tail"])
+        S.ext(t + case["tail"], [])
+        S.log.append(["end", S.now(), len(mode.delay.delays), bool(mode.active)])
     finally:
-        S.dead = True
+        _MH["mode"], _MH["rec"] = None, None
+        if S is not None:
+            S.close()
         for k in keys:
             m.events.remove_handler_by_key(k)
+        if hold["queue"] is not None and not hold["queue"].is_empty():
+            hold["queue"].clear()
         mode.delay.clear()
+        rig.advance(0)
         if mode.active:
             rig.post("stop_m2")
             rig.advance(0.125)
-    out = {"log": log}
+    out = {"log": S.log, "steps": S.steps, "flags0": flags0}
     if rig.exception():
         out["exc"] = repr(rig.exception())[:300]
     return out
+
+
+def _cmstep(s):
+    k = s[0]
+    if k == "ext":
+        return "(MOps %s %s)" % (zlit(s[1]), coqlist(_cop(o) for o in s[2]))
+    if k in ("fire", "fireat"):
+        return "(MFire %s %s)" % (zlit(s[1]), zlit(s[2]))
+    if k == "ctl":
+        return "(MCtl %s %s)" % (zlit(s[1]), zlit(s[2]))
+    return "(%s %s)" % ({"mstart": "MStart", "mstarted": "MStarted", "mstop": "MStop", "mstopped": "MStopped",
+                         "mwoundup": "MWoundUp"}[k], zlit(s[1]))
+
+
+def coq_modestop(case, out):
+    if "exc" in out or "harness_error" in out or any(e[0] == "runaway" for e in out["log"]):
+        return None
+    f = out["flags0"]
+    m0 = "(mkM %s %s %s %s)" % (blit(f & 1), blit(f & 2), blit(f & 4), blit(f & 8))
+    scripts = coqlist(coqlist(_cop(o) for o in s) for s in case["scripts"])
+    steps = coqlist(_cmstep(s) for s in out["steps"])
+    evs = coqlist(_cev(e) for e in out["log"] if e[0] in VISIBLE)
+    return "((%s, %s, %s), %s)" % (scripts, m0, steps, evs)
 
 
 def oracle_modestop(case, out):
@@ -1079,53 +1592,77 @@ def oracle_modestop(case, out):
         if not any(f["sig"] == sig for f in fails):
             fails.append({"sig": sig, "what": what})
 
+    if "harness_error" in out:
+        fail("mode-harness", out["harness_error"])
+        return fails
     if "exc" in out:
         fail("mode-exception", out["exc"])
-    stop_t = None
-    finished = False
-    added = {}
+    if any(e[0] == "foreign" for e in out["log"]):
+        fail("mode-control-event-foreign-manager", "a delayed control event of the mode's device was scheduled on machine.delay, "
+                                                   "which the mode's stop does not clear")
+    # 1. the delay property itself on the mode's manager, with the stop markers ending ownership
+    _spec_pass(out["log"], fail, late=False, owner=True)
+    # 2. the lifecycle, read from the log alone: every stop request on a running mode is followed (same instant) by an
+    #    effective stop marker; when the mode has finished stopping nothing is left and nothing added before fires
+    requested = None
+    finished_ids = None
+    ids = set()
     for e in out["log"]:
         if e[0] == "add":
-            added[e[2]] = e
-        elif e[0] == "stop":
-            stop_t = e[1]
-            for u, a in added.items():
-                pass
+            ids.add(e[2])
+        elif e[0] == "stop-request":
+            requested = e[1]
+        elif e[0] == "mode" and e[1] == 1:
+            requested = None
         elif e[0] == "finished":
-            finished = True
+            if requested is not None:
+                fail("mode-stop-ignored", "stop requested at %d on the running mode: Mode.stop() did not begin stopping" % requested)
             if not e[2]:
                 fail("mode-not-stopped", "the mode did not finish stopping")
             if e[3]:
-                fail("mode-delay-left-behind", "mode.delay still holds %r after the mode has stopped" % (e[3],))
-        elif e[0] == "call":
-            _, t, u, phase = e
-            if finished:
-                fail("mode-delay-survived-stop", "a delay added to mode.delay (%s) fired at %d, after the mode had stopped" % (phase, t))
-            elif stop_t is not None and phase == "pre":
-                fail("mode-delay-fired-while-stopping", "a delay added before stop() fired at %d, after stop() at %d" % (t, stop_t))
-        elif e[0] == "end":
-            if e[2]:
-                fail("mode-delay-left-behind", "mode.delay holds %d entries at the end" % e[2])
-    # delays due strictly before the stop request must have fired
-    calls = set(e[2] for e in out["log"] if e[0] == "call")
-    for u, a in added.items():
-        if a[3] == "pre" and stop_t is not None and a[1] + a[4] * 1000 < stop_t and u not in calls:
-            fail("mode-delay-missed", "delay due at %d before stop at %d did not fire" % (a[1] + a[4] * 1000, stop_t))
+                fail("mode-delay-left-behind", "mode.delay still holds %d entries after the mode has stopped" % e[3])
+            finished_ids = set(ids)
+        elif e[0] == "restarted":
+            if not e[2]:
+                fail("mode-not-restarted", "the mode did not start again")
+        elif e[0] == "call" and finished_ids is not None and e[2] in finished_ids:
+            fail("mode-delay-survived-stop", "delay id %d of the stopped mode fired at %d" % (e[2], e[6]))
     return fails
 
 
 def shrink_modestop(case):
-    for k in ("pre", "stopping", "stopped", "window"):
-        for i in range(len(case[k])):
-            yield dict(case, **{k: case[k][:i] + case[k][i + 1:]})
-    if case["restart"]:
-        yield dict(case, restart=False)
-    if case["hold"]:
-        yield dict(case, hold=0, window=[])
+    for k in ("stopping", "stopped", "window"):
+        for ops in _shrink_ops(case[k]):
+            yield dict(case, **{k: ops})
+    for k in ("pre", "post"):
+        st = case[k]
+        for i in range(len(st)):
+            yield dict(case, **{k: st[:i] + st[i + 1:]})
+            for ops in _shrink_ops(st[i][1]):
+                yield dict(case, **{k: st[:i] + [[st[i][0], ops]] + st[i + 1:]})
+    sc = case["scripts"]
+    for j in range(len(sc)):
+        for ops in _shrink_ops(sc[j]):
+            yield dict(case, scripts=sc[:j] + [ops] + sc[j + 1:])
+    if case["stop2"]:
+        yield dict(case, stop2=False)
+    if case["stop_again"]:
+        yield dict(case, stop_again=None)
+    for w in case.get("ctl", []):
+        yield dict(case, ctl=[x for x in case["ctl"] if x != w])
+    if case["restart"] and not case["post"] and not case["stop2"]:
+        yield dict(case, restart=None)
+    if case["hold"] and not case["window"]:
+        yield dict(case, hold=0, stop_again=None if case["stop_again"] == "stopping" else case["stop_again"])
 
 
-SUITES.append(Suite("modestop", gen_modestop, run_modestop, None, None, oracle_modestop, shrink_modestop,
-                    lambda c, o: bool(c["pre"] or c["stopping"] or c["stopped"] or c["window"]),
-                    {"quick": 600, "thorough": 10000}, worker_init=_init_timer_rig,
+def nontrivial_modestop(case, out):
+    log = out.get("log", [])
+    return any(e[0] == "add" for e in log) and any(e[0] == "mode" and e[1] == 1 for e in log)
+
+
+HDR_OWNER = "From C13 Require Import Model Owner.\nDefinition run := owner_run.\nDefinition out_eqb := owner_out_eqb.\n"
+SUITES.append(Suite("modestop", gen_modestop, run_modestop, HDR_OWNER, coq_modestop, oracle_modestop, shrink_modestop,
+                    nontrivial_modestop, {"quick": 600, "thorough": 12000}, worker_init=_init_timer_rig, shard=200,
                     describe=lambda c: ("hold " if c["hold"] else "") + ("stopping " if c["stopping"] else "") +
-                    ("stopped " if c["stopped"] else "") + ("restart" if c["restart"] else "")))
+                    ("stopped " if c["stopped"] else "") + ("restart-" + c["restart"] if c["restart"] else "")))
